@@ -214,8 +214,10 @@ static void program(Rng& r) {
 template<typename T>
 static void accuracy_cell(Rng& r) {
   const bool TH = G().thorough();
-  const uint16_t k = uint16_t(r.pick({50, 100, 200, 400}));
-  const uint64_t n = TH ? 1000000 : 150000;
+  const bool huge_k = r.chance(0.25);
+  const uint16_t k = huge_k ? uint16_t(r.pick({20000, 32768, 32800, 50000, 65535})) : uint16_t(r.pick({50, 100, 200, 400}));
+  if (huge_k) count("accuracy_cells_huge_k");
+  const uint64_t n = huge_k ? 600000 : (TH ? 1000000 : 150000);
   const int order = int(r.below(3));
   const bool merged = r.coin();
   describe(std::string("accuracy ") + tname<T>() + " k=" + std::to_string(k) + " n=" + std::to_string(n) + " order=" + std::to_string(order) + " merged=" + std::to_string(merged));
@@ -305,10 +307,39 @@ static void empty_target_scenario(Rng& r) {
   count("empty_target_scenarios");
 }
 
+template<typename T>
+static void frequent_query_scenario(Rng& r) {
+  const uint16_t k = uint16_t(r.range(10, 200));
+  const uint64_t n = uint64_t(r.range(3000, 12000));
+  const int every = int(r.range(1, 3));
+  const int kind = int(r.below(4));
+  describe(std::string("frequent-queries ") + tname<T>() + " k=" + std::to_string(k) + " n=" + std::to_string(n) + " every=" + std::to_string(every) + " kind=" + std::to_string(kind));
+  tdigest<T> td(k); Model<T> m;
+  std::vector<T> stream; gen_stream<T>(r, int(r.below(9)), n, stream);
+  const std::string K = std::string("tdigest|") + tname<T>() + "|";
+  uint32_t worst = 0;
+  for (uint64_t i = 0; i < stream.size(); ++i) {
+    td.update(stream[i]); m.add(stream[i]);
+    if ((i + 1) % every == 0) {
+      switch (kind) {
+        case 0: (void)td.get_quantile(0.99); break;
+        case 1: (void)td.get_rank(stream[i]); break;
+        case 2: (void)td.get_serialized_size_bytes(); break;
+        default: td.compress(); break;
+      }
+      if (i % 97 == 0) { const uint32_t cc = centroid_count(td); worst = std::max(worst, cc);
+        if (cc > 3u * k + 50u) { checked(); fail(K + "centroid-count-unbounded|frequent-compress-points", G().cur_desc + " after " + std::to_string(i + 1) + " updates centroids=" + std::to_string(cc)); break; } }
+    }
+  }
+  observe(td, m, r, "frequent compress points", k);
+  count("frequent_query_scenarios");
+}
+
 void run_case(uint64_t idx, Rng& r) {
+  if (idx % 10 == 7) { if (r.coin()) frequent_query_scenario<double>(r); else frequent_query_scenario<float>(r); return; }
   if (idx % 10 == 3) { if (r.coin()) empty_target_scenario<double>(r); else empty_target_scenario<float>(r); return; }
   if (idx % 100 == 31) { if (r.coin()) accuracy_cell<double>(r); else accuracy_cell<float>(r); return; }
-  if (idx % 400 == 77) { shipped<double>(r, "tdigest_ref_k100_n10000_double.sk"); shipped<float>(r, "tdigest_ref_k100_n10000_float.sk"); return; }
+  if (idx % 400 == 75) { shipped<double>(r, "tdigest_ref_k100_n10000_double.sk"); shipped<float>(r, "tdigest_ref_k100_n10000_float.sk"); return; }
   if (r.coin()) program<double>(r); else program<float>(r);
 }
 
